@@ -1,0 +1,21 @@
+//go:build verif
+
+package trafficshape
+
+// Contracts for govc (contract-based deductive verification, see /verif/DESIGN.md).
+// This file contains comments only and is compiled only with the build tag `verif`.
+
+// Thin contracts used by the proxy core (package martian). They state no effect on the proxy's state.
+//@ func (*Conn).GetWrappedConn
+//@   trusted
+//@ func (*Conn).GetNextActionFromByte
+//@   trusted
+//@   ensures result != nil
+//@ func (*Conn).GetCurrentThrottle
+//@   trusted
+//@   ensures result != nil
+//@ func (*Bucket).SetCapacity
+//@   trusted
+//@ func (*Listener).GetTrafficShapedConn
+//@   trusted
+//@   ensures result != nil
